@@ -1,11 +1,12 @@
 // C08 / C01: bounded histories on a real ThreadPool with *virtual workers* (std::thread start is modelled,
 // pool threads never run by themselves; the harness plays worker / waiter by calling the same real
-// consumer functions: tryExecuteNext, tryExecuteNextFromRings, TaskSet::wait, threadLoopImpl).
+// consumer functions: tryExecuteNext, tryExecuteNextFromRings, threadLoopImpl).
 //   VF_ACCT: C08 - at every quiescent point (all containers empty, no task set has outstanding tasks,
 //            no call in flight) the pool's pending-work counter workRemaining_ is 0.
 //   VF_ONCE: C01 - every functor handed to the pool ran exactly once by the time ~ThreadPool returned
 //            (and never more than once before).
 // Claims are at API-call granularity: every API call below runs atomically.
+#define VF_THREAD_STATE_TRIVIAL 1
 #include "../C47/pool_kit.h"
 
 #ifndef VF_N
@@ -32,7 +33,7 @@ void registerFineSchedulerQuanta() {}
 }  // namespace detail
 }  // namespace dispenso
 
-static const int kMaxIds = 8;
+static const int kMaxIds = 6;
 static int g_runs[kMaxIds];
 static int g_submitted;  // ids 0..g_submitted-1 were handed to the pool
 
@@ -64,8 +65,8 @@ static bool containers_empty(ThreadPool& p) {
   }
   return true;
 }
+// quiescent: nothing queued anywhere, nothing in flight (sequential harness: no call is active here)
 static void at_quiescence(ThreadPool& p) {
-  // quiescent: nothing queued anywhere, nothing in flight (sequential harness: no call is active here)
   if (!containers_empty(p)) return;
   vf_reach("a quiescent point was checked");
 #ifdef VF_ACCT
@@ -75,23 +76,45 @@ static void at_quiescence(ThreadPool& p) {
 }
 static void never_twice() {
 #ifdef VF_ONCE
-  for (int i = 0; i < kMaxIds; ++i) {
-    vf_check(g_runs[i] <= 1, "a submitted functor ran more than once");
-  }
+  vf_check(g_runs[0] <= 1 && g_runs[1] <= 1 && g_runs[2] <= 1 && g_runs[3] <= 1 && g_runs[4] <= 1 &&
+               g_runs[5] <= 1,
+           "a submitted functor ran more than once");
 #endif
 }
-static void ledger_after_destructor() {
+static void finish(ThreadPool* pool) {
+  never_twice();
 #ifdef VF_ONCE
+  delete pool;  // real ~ThreadPool: stop, wake, drain central queue, join (model), drain rings and steal rings
   for (int i = 0; i < kMaxIds; ++i) {
     vf_check(g_runs[i] == (i < g_submitted ? 1 : 0),
              "a functor handed to the pool did not run exactly once by the time ~ThreadPool returned");
   }
+#else
+  (void)pool;  // C08: the pool stays alive (the drain of the destructor belongs to C01)
 #endif
 }
-static ssize_t other_size(ssize_t n) {  // symbolic resize target in 0..2 different from n
-  ssize_t t = (ssize_t)vf_range_u32(0, 2);
-  vf_assume(t != n);
-  return t;
+// resize to a symbolically chosen size in 0..2 different from the current one.  The choice is dispatched to
+// calls with a literal argument so that constant propagation keeps loop trip counts concrete inside
+// resizeLocked (same set of behaviours).
+static void resize_other(ThreadPool& p, ssize_t n) {
+  uint32_t t = vf_range_u32(0, 2);
+  vf_assume((ssize_t)t != n);
+  if (t == 0) {
+    p.resize(0);
+  } else if (t == 1) {
+    p.resize(1);
+  } else {
+    p.resize(2);
+  }
+}
+// waiter / helper drains the central queue: up to 4 tasks (written without a loop)
+static void drain_queue(ThreadPool& p) {
+  bool more = p.tryExecuteNext();
+  if (more) more = p.tryExecuteNext();
+  if (more) more = p.tryExecuteNext();
+  if (more) more = p.tryExecuteNext();
+  if (more) more = p.tryExecuteNext();
+  vf_assume(!more);
 }
 
 extern "C" void vf_main() {
@@ -100,11 +123,10 @@ extern "C" void vf_main() {
 
 #if VF_SCN == 1
   // fork-join ring fast path (TaskSet::scheduleBulk with count == pool size pushes task i to ring i),
-  // optionally one task stolen by a waiter, then resize() to a different size (drains what is left),
-  // then one more submission and the waiter's drain
+  // optionally one task stolen by a waiter, then resize() to a different size (drains what is left)
   {
-    TaskSet ts(*pool);
-    ts.scheduleBulk((size_t)VF_N, Gen{0});
+    TaskSet* ts = new TaskSet(*pool);  // never destroyed: ~TaskSet would only wait()
+    ts->scheduleBulk((size_t)VF_N, Gen{0});
     g_submitted = VF_N;
     vf_check(pool->workRemaining_.load() == VF_N, "harness: bulk must be pending (ring fast path taken)");
     if (vf_nondet_bool()) {
@@ -112,14 +134,11 @@ extern "C" void vf_main() {
       pool->tryExecuteNextFromRings(start);
       vf_reach("waiter stole a ring task before the resize");
     }
-    pool->resize(other_size(VF_N));
+    resize_other(*pool, VF_N);
     never_twice();
+    vf_check(ts->outstandingTaskCount_.load() == 0, "harness: resize must have run the ring tasks");
     at_quiescence(*pool);
-  }  // ~TaskSet: wait() returns at once, everything ran
-  pool->schedule(Task{g_submitted++}, ForceQueuingTag());
-  while (pool->tryExecuteNext()) {
   }
-  at_quiescence(*pool);
 #elif VF_SCN == 2
   // a worker parks (real enterSleep), schedulePlaced claims it and pushes to its steal ring; then either
   // the worker wakes up and runs its loop (real threadLoopImpl, the task stops the worker afterwards) or
@@ -131,37 +150,35 @@ extern "C" void vf_main() {
     g_stop_target = &pool->threads_[(size_t)w];
     pool->schedulePlaced(StopTask{g_submitted++}, ForceQueuingTag());
     vf_check(!pool->stealRings_[(size_t)w].empty(), "harness: placed task must sit in the claimed worker's steal ring");
-    if (vf_nondet_bool()) {
-      ws->exitSleep(w);
-      pool->threadLoopWake(pool->threads_[(size_t)w], w);
-      vf_reach("virtual worker ran its loop and was stopped by the task");
-    } else {
-      pool->resize(other_size(VF_N));
-      vf_reach("resize drained the steal ring");
-    }
+#ifdef VF_WORKER
+    ws->exitSleep(w);
+    pool->threadLoopWake(pool->threads_[(size_t)w], w);
+    vf_reach("virtual worker ran its loop and was stopped by the task");
+#else
+    resize_other(*pool, VF_N);
+    vf_reach("resize drained the steal ring");
+#endif
     never_twice();
     at_quiescence(*pool);
   }
 #elif VF_SCN == 3
   // central-queue paths: schedule (inline or queued), schedule(FQ), scheduleBulk(2); waiter drains with
-  // tryExecuteNext; resize to another size; one more round
+  // tryExecuteNext or not; resize to another size (its own drain); one more round
   pool->schedule(Task{g_submitted++});
   pool->schedule(Task{g_submitted++}, ForceQueuingTag());
   pool->scheduleBulk(2, Gen{g_submitted});
   g_submitted += 2;
   if (vf_nondet_bool()) {
-    while (pool->tryExecuteNext()) {
-    }
+    drain_queue(*pool);
     never_twice();
     at_quiescence(*pool);
   }
-  pool->resize(other_size(VF_N));
+  resize_other(*pool, VF_N);
   never_twice();
   at_quiescence(*pool);
   pool->schedule(Task{g_submitted++});
   pool->schedulePlaced(Task{g_submitted++});
-  while (pool->tryExecuteNext()) {
-  }
+  drain_queue(*pool);
   at_quiescence(*pool);
 #elif VF_SCN == 4
   // a virtual worker runs the real worker loop (batched decrement path, thread_pool.cpp:213-227) over
@@ -173,11 +190,35 @@ extern "C" void vf_main() {
   pool->threadLoopWake(pool->threads_[0], 0);
   never_twice();
   at_quiescence(*pool);
+#elif VF_SCN == 5
+  // ring overflow: ring 0 is full (16 older tasks pushed through the real try_push), so the fork-join fast
+  // path falls back to the central queue for its task (scheduleBulkToRingsFastPath, thread_pool.h:845-851);
+  // then optionally a waiter steals one ring task / a helper takes one queue task, then the end
+  {
+    PK_PUSH_IF(pool->rings_[0], true) PK_PUSH_IF(pool->rings_[0], true) PK_PUSH_IF(pool->rings_[0], true)
+    PK_PUSH_IF(pool->rings_[0], true) PK_PUSH_IF(pool->rings_[0], true) PK_PUSH_IF(pool->rings_[0], true)
+    PK_PUSH_IF(pool->rings_[0], true) PK_PUSH_IF(pool->rings_[0], true) PK_PUSH_IF(pool->rings_[0], true)
+    PK_PUSH_IF(pool->rings_[0], true) PK_PUSH_IF(pool->rings_[0], true) PK_PUSH_IF(pool->rings_[0], true)
+    PK_PUSH_IF(pool->rings_[0], true) PK_PUSH_IF(pool->rings_[0], true) PK_PUSH_IF(pool->rings_[0], true)
+    PK_PUSH_IF(pool->rings_[0], true)
+    pool->workRemaining_.fetch_add(16);  // what the producers of the older tasks did
+    TaskSet* ts = new TaskSet(*pool);
+    ts->scheduleBulk((size_t)VF_N, Gen{0});
+    g_submitted = VF_N;
+    vf_check(pool->work_.n_ == 1, "harness: ring 0 full, its task must have fallen back to the central queue");
+    if (vf_nondet_bool()) {
+      size_t start = 0;
+      pool->tryExecuteNextFromRings(start);
+    }
+    if (vf_nondet_bool()) {
+      pool->tryExecuteNext();
+    }
+    never_twice();
+  }
 #endif
 
-  never_twice();
-#ifndef VF_NODTOR
-  delete pool;
-  ledger_after_destructor();
+  finish(pool);
+#if VF_SCN == 5 && defined(VF_ONCE)
+  vf_check(pk::g_ballast_ran == 16, "an older ring task did not run exactly once by the time ~ThreadPool returned");
 #endif
 }
